@@ -1,0 +1,66 @@
+//go:build verif
+
+package freelist
+
+import (
+	"sort"
+
+	"go.etcd.io/bbolt/internal/common"
+)
+
+// This file is only compiled with the build tag "verif". It gives an external
+// verification harness a canonical, read-only dump of the allocator state.
+
+// VerifPending is one pending page of a transaction.
+type VerifPending struct {
+	ID      common.Pgid
+	AllocTx common.Txid
+}
+
+// VerifState is a canonical (sorted) copy of the freelist state.
+type VerifState struct {
+	Free             []common.Pgid
+	Pending          map[common.Txid][]VerifPending
+	LastReleaseBegin map[common.Txid]common.Txid
+	Allocs           map[common.Pgid]common.Txid
+	Cache            []common.Pgid
+	Readers          []common.Txid
+}
+
+// VerifDump copies the state of a freelist created by this package.
+func VerifDump(i Interface) VerifState {
+	var s *shared
+	switch f := i.(type) {
+	case *array:
+		s = f.shared
+	case *hashMap:
+		s = f.shared
+	default:
+		panic("VerifDump: unknown freelist implementation")
+	}
+	st := VerifState{
+		Free:             append([]common.Pgid{}, i.freePageIds()...),
+		Pending:          map[common.Txid][]VerifPending{},
+		LastReleaseBegin: map[common.Txid]common.Txid{},
+		Allocs:           map[common.Pgid]common.Txid{},
+		Readers:          append([]common.Txid{}, s.readonlyTXIDs...),
+	}
+	for tid, txp := range s.pending {
+		var l []VerifPending
+		for k, id := range txp.ids {
+			l = append(l, VerifPending{ID: id, AllocTx: txp.alloctx[k]})
+		}
+		sort.Slice(l, func(a, b int) bool { return l[a].ID < l[b].ID })
+		st.Pending[tid] = l
+		st.LastReleaseBegin[tid] = txp.lastReleaseBegin
+	}
+	for id, tid := range s.allocs {
+		st.Allocs[id] = tid
+	}
+	for id := range s.cache {
+		st.Cache = append(st.Cache, id)
+	}
+	sort.Slice(st.Cache, func(a, b int) bool { return st.Cache[a] < st.Cache[b] })
+	sort.Slice(st.Readers, func(a, b int) bool { return st.Readers[a] < st.Readers[b] })
+	return st
+}
